@@ -176,6 +176,10 @@ structure RecPlan where
   cost : Str
   titleFormat : Str
   out : RecOut
+  /-- `sys.stdout` is redirected to `sys.stderr` from the very start in STDOUT mode: the
+  "Using database / pipeline …" messages and the pipeline's own prints then go to stderr, and the
+  standard output carries the program list only. -/
+  messagesOnStderr : Bool
   deriving Repr
 
 /-- The database a directory `d` stands for: `d_db.json` next to `d`. The loop of the code then tries
@@ -283,7 +287,8 @@ def recommendPlan (a : RecArgs) (w : World) : Outcome RecPlan :=
           .run {
             db := db, announcedDb := announced, pfx := pfx, pipe := pipe,
             base := baseFor a parent, cost := a.cost, titleFormat := tf,
-            out := recOut a pfx parent }
+            out := recOut a pfx parent,
+            messagesOnStderr := a.output.map asciiUpper = "STDOUT".toList }
 
 /-! ### `paroxython tag` -/
 
